@@ -192,6 +192,9 @@ type Dump struct {
 	SetCap   int
 	ItemsCh  int
 	IsClosed bool
+	// ClosedKnown: the closed flag was found white-box; otherwise the sequential driver sets
+	// IsClosed from the history (a Close call has returned)
+	ClosedKnown bool
 	Metric   []uint64 // totals per metric type (nil when metrics are off)
 }
 
@@ -226,7 +229,7 @@ func (t *typedCache[K]) Dump() *Dump {
 	d.Costs, d.Used, d.MaxCost = ristretto.VerifPolicy(t.c)
 	d.Buckets, d.LastCl = ristretto.VerifExpiry(t.c)
 	d.SetBuf, d.SetCap, d.ItemsCh = ristretto.VerifBuffers(t.c)
-	d.IsClosed = ristretto.VerifIsClosed(t.c)
+	d.IsClosed, d.ClosedKnown = ristretto.VerifIsClosed(t.c)
 	d.Metric = ristretto.VerifMetricTotals(t.c.Metrics)
 	return d
 }
@@ -365,7 +368,10 @@ func newCache(cfg Cfg, s *Scenario) cacheAPI {
 	vsched.SetClockPoints(hasAdv)
 	closed, maxc := c.Cells()
 	set := map[uintptr]struct{}{}
-	if c.Metrics() == nil || cfg.MetricPoints {
+	if closed == nil || maxc == nil {
+		// the cells could not be located in this tree: every atomic operation is a schedule point
+		vsched.ExemptAtomics(set)
+	} else if c.Metrics() == nil || cfg.MetricPoints {
 		if !hasClose {
 			set[uintptr(closed)] = struct{}{}
 		}
